@@ -47,7 +47,7 @@ MOD = st.fixed_dictionaries({'target': st.sampled_from(['file', 'file', 'file', 
 
 
 def strategy(tier):
-    w = {'mixed': 4, 'growshrink': 4, 'deep': 1, 'links': 5, 'boot': 2, 'hybrid': 0, 'exactfill': 4, 'bootlinks': 1}
+    w = {'mixed': 4, 'growshrink': 4, 'deep': 1, 'links': 5, 'boot': 2, 'hybrid': 0, 'exactfill': 4, 'bootlinks': 1, 'linktwins': 2, 'samename': 1}
     mods = st.lists(MOD, min_size=1, max_size=3)
     # a third of the cases modify an independently re-mastered ("foreign") version of the image (vf/indep/remaster.py)
     foreign = st.integers(0, 1 << 30).map(lambda x: [{'foreign': gen.foreign_style(x)}])
